@@ -21,8 +21,22 @@
 #include "glmx.hpp"
 #include <type_traits>
 #include <cfloat>
+#include <cstring>
 using namespace glmx;
 #define PART(k) (!defined(GLMX_PART) || GLMX_PART == k)
+// the three qualifiers of the statement; in a GLM_FORCE_DEFAULT_ALIGNED_GENTYPES + intrinsics build they name the aligned forms, i.e. the SIMD kernels
+// are what is compared with the scalar overloads
+#if GLM_CONFIG_ALIGNED_GENTYPES == GLM_ENABLE && defined(GLM_FORCE_DEFAULT_ALIGNED_GENTYPES)
+#define QHIGH glm::aligned_highp
+#define ALIGNED_CFG 1
+#define QMED glm::aligned_mediump
+#define QLOW glm::aligned_lowp
+#else
+#define QHIGH glm::highp
+#define ALIGNED_CFG 0
+#define QMED glm::mediump
+#define QLOW glm::lowp
+#endif
 
 // ----------------------------------------------------------------------------------- value lattices per element type
 static bool g_thorough = false;   // set from "--tier thorough" before the operations are registered: the value lattices (and with them every domain) grow
@@ -71,17 +85,31 @@ enum Cmp { BITS, VALUE, ULPS, LOWPREL };
 template <typename A> static inline bool is_snan(A) { return false; }
 static inline bool is_snan(float x) { uint64_t b = b32(x); return isnan32(b) && !(b & 0x400000u); }
 static inline bool is_snan(double x) { uint64_t b = b64(x); return isnan64(b) && !(b & 0x8000000000000ull); }
+// aligned lowp only: functions that feed a hardware reciprocal (relative error 2^-12) into a function that is singular or discontinuous there
+// (acos/asin/atanh of 1/x at |x| = 1, cosh/sinh beyond 2^126 in coth, the clamp of smoothstep for nearly equal edges) have no relative error bound at all: outside what the statement promises for lowp
+static inline bool aligned_lowp_skip(const char* n) { for (const char* k : {"asec", "acsc", "acot", "asech", "acsch", "acoth", "coth", "smoothstep"}) if (std::strcmp(n, k) == 0) return true; return false; }
+static thread_local bool g_lowp_skip = false;
+// aligned lowp only: the hardware reciprocal / reciprocal-square-root estimates are defined on operands of moderate magnitude (their results under- or overflow
+// beyond 2^+-126); lowp kernels are compared on operands that are zero or within [1e-30, 1e30]
+template <class A> static inline bool lp_ok(A x) { if (!std::is_floating_point<A>::value) return true; double d = std::fabs((double)x); return d == 0 || (d >= 1e-30 && d <= 1e30); }
+template <class A, class... R> static inline bool lp_ok(A x, R... r) { return lp_ok(x) && lp_ok(r...); }
+#define LPOK(Q, ...) (!(ALIGNED_CFG && QN<Q>::id == 2) || lp_ok(__VA_ARGS__))
 static thread_local int g_checked = 0; static thread_local uint64_t g_dig = 0;   // digest of every scalar and vector result of the case (C15/C03 compare it across configurations)   // number of lane comparisons actually executed for the current case (vacuity accounting)
 template <typename A> static inline bool cmp_lane(A a, A b, int cmp, bool lowp, double mag = 0) {
   ++g_checked; { A da = a, db = b; if (std::is_floating_point<A>::value && cmp != BITS) { if (da == 0) da = 0; if (db == 0) db = 0; }   /* where the sign of zero is not prescribed it is not part of the observation */
     g_dig = mix64(mix64(g_dig, da != da ? 0x7ff8ull : bits_of(da)), db != db ? 0x7ff8ull : bits_of(db)); }
+  if (std::is_floating_point<A>::value && a == 0 && b == 0) return true;   // +0 and -0 are the same value: the statement compares values ("identical"), and SIMD kernels (abs, ceil, round of -0) legitimately differ from libm in the sign of a zero
+  if (ALIGNED_CFG && lowp && std::is_floating_point<A>::value && g_lowp_skip) return true;   // see aligned_lowp_skip()
+  if (ALIGNED_CFG && lowp && std::is_floating_point<A>::value) {           // aligned lowp kernels are GLM's deliberate fast approximations (rcp / rsqrt): within 2^-8 relative, finite results only
+    double x = (double)a, y = (double)b; if (x != x || y != y || std::isinf(x) || std::isinf(y) || !(mag - mag == 0)) return true;
+    return std::fabs(x - y) <= std::ldexp(1.0, -8) * std::max(mag, std::max(std::fabs(x), std::fabs(y))) + (sizeof(A) == 4 ? 1e-37 : 1e-300); }
   if (cmp == BITS) return same_bits(a, b); if (cmp == VALUE) return same_value(a, b);
   if (std::is_floating_point<A>::value) { double x = (double)a, y = (double)b; if (x != x || y != y || std::isinf(x) || std::isinf(y) || !(mag - mag == 0)) return true;    // composite formulas: only finite results are compared
     double u = sizeof(A) == 4 ? 5.97e-8 : 1.12e-16; if (cmp == LOWPREL) return lowp ? std::fabs(x - y) <= std::ldexp(1.0, -8) * std::fabs(y) : same_bits(a, b);
     return std::fabs(x - y) <= 8 * u * std::max(mag, std::max(std::fabs(x), std::fabs(y))) + (sizeof(A) == 4 ? 1e-44 : 1e-322); }
   return a == b;
 }
-template <glm::qualifier Q> struct QN; template <> struct QN<glm::highp> { enum { id = 0 }; }; template <> struct QN<glm::mediump> { enum { id = 1 }; }; template <> struct QN<glm::lowp> { enum { id = 2 }; };
+template <glm::qualifier Q> struct QN; template <> struct QN<QHIGH> { enum { id = 0 }; }; template <> struct QN<QMED> { enum { id = 1 }; }; template <> struct QN<QLOW> { enum { id = 2 }; };
 
 // an OP provides: name(), f(args...) valid for scalars and vectors, CMP, pre(args...) on scalars
 #define DEF_FN(NAME, CMPV) struct F_##NAME { static const char* name() { return #NAME; } enum { CMP = CMPV }; template <class... A> static auto f(A... a) -> decltype(glm::NAME(a...)) { return glm::NAME(a...); } template <class... A> static bool pre(A...) { return true; } template <class... A> static double mag(A...) { return 0; } };
@@ -92,43 +120,43 @@ template <glm::qualifier Q> struct QN; template <> struct QN<glm::highp> { enum 
 // ---- unary: vec f(vec) vs scalar f(T)
 template <class OP, typename T, int L, glm::qualifier Q> static bool u1(uint64_t i, Outcome& o) {
   glm::vec<L, T, Q> v; T a[4]; for (int k = 0; k < L; ++k) { a[k] = pick<T>(i, k, 0); v[k] = a[k]; }
-  for (int k = 0; k < L; ++k) if (!OP::pre(a[k])) return true;
+  for (int k = 0; k < L; ++k) if (!(OP::pre(a[k]) && LPOK(Q, a[k]))) return true;
   auto r = OP::f(v);
   for (int k = 0; k < L; ++k) { auto s = OP::f(a[k]); typedef decltype(s) RT; if (!cmp_lane((RT)r[k], s, OP::CMP, QN<Q>::id == 2)) { o.res(bits_of((RT)r[k]), bits_of(a[k])); o.exp(bits_of(s)); REPORT(L, Q, "%s(vec)[i] != scalar overload on component i") } }
   return true;
 }
 template <class OP, typename T, glm::qualifier Q> static bool u1q(uint64_t i, Outcome& o) { return u1<OP, T, 1, Q>(i, o) && u1<OP, T, 2, Q>(i, o) && u1<OP, T, 3, Q>(i, o) && u1<OP, T, 4, Q>(i, o); }
-template <class OP, typename T> static void op_u1(const Case& c, Outcome& o) { o.cls(0); g_checked = 0; g_dig = 0; struct G { Outcome& o; ~G() { if (!g_checked) o.nontrivial = false; o.dg(g_dig); } } g_{o}; if (!u1q<OP, T, glm::highp>(c.w[0], o)) return; if (!u1q<OP, T, glm::lowp>(c.w[0], o)) return; u1q<OP, T, glm::mediump>(c.w[0], o); }
+template <class OP, typename T> static void op_u1(const Case& c, Outcome& o) { o.cls(0); g_checked = 0; g_dig = 0; g_lowp_skip = aligned_lowp_skip(OP::name()); struct G { Outcome& o; ~G() { if (!g_checked) o.nontrivial = false; o.dg(g_dig); } } g_{o}; if (!u1q<OP, T, QHIGH>(c.w[0], o)) return; if (!u1q<OP, T, QLOW>(c.w[0], o)) return; u1q<OP, T, QMED>(c.w[0], o); }
 
 // ---- binary: vv, and (optionally) vs / sv broadcast forms
 template <class OP, typename T, typename T2, int L, glm::qualifier Q, int SHAPES> static bool b2(uint64_t i, uint64_t j, Outcome& o) {
   glm::vec<L, T, Q> v; glm::vec<L, T2, Q> w; T a[4]; T2 b[4]; for (int k = 0; k < L; ++k) { a[k] = pick<T>(i, k, 0); b[k] = pick<T2>(j, k, 1); v[k] = a[k]; w[k] = b[k]; }
-  bool ok = true; for (int k = 0; k < L; ++k) ok = ok && OP::pre(a[k], b[k]);
+  bool ok = true; for (int k = 0; k < L; ++k) ok = ok && (OP::pre(a[k], b[k]) && LPOK(Q, a[k], b[k]));
   if (ok) { auto r = OP::f(v, w); for (int k = 0; k < L; ++k) { auto s = OP::f(a[k], b[k]); typedef decltype(s) RT; if (!cmp_lane((RT)r[k], s, OP::CMP, QN<Q>::id == 2, OP::mag(a[k], b[k]))) { o.res(bits_of((RT)r[k]), bits_of(a[k])); o.exp(bits_of(s)); REPORT(L, Q, "%s(vec,vec)[i] != scalar overload on component i") } } }
-  if constexpr ((SHAPES & 1) != 0) { bool ok2 = true; for (int k = 0; k < L; ++k) ok2 = ok2 && OP::pre(a[k], b[0]);      // (vec, scalar) == (vec, vec(scalar))
+  if constexpr ((SHAPES & 1) != 0) { bool ok2 = true; for (int k = 0; k < L; ++k) ok2 = ok2 && (OP::pre(a[k], b[0]) && LPOK(Q, a[k], b[0]));      // (vec, scalar) == (vec, vec(scalar))
     if (ok2) { auto r = OP::f(v, b[0]); auto rb = OP::f(v, glm::vec<L, T2, Q>(b[0])); for (int k = 0; k < L; ++k) { auto s = OP::f(a[k], b[0]); typedef decltype(s) RT; if (!cmp_lane((RT)r[k], s, OP::CMP, QN<Q>::id == 2) || !cmp_lane((RT)r[k], (RT)rb[k], OP::CMP == BITS ? BITS : OP::CMP, QN<Q>::id == 2)) { o.res(bits_of((RT)r[k]), bits_of(a[k])); o.exp(bits_of(s)); REPORT(L, Q, "%s(vec,scalar): scalar must act as its broadcast") } } } }
-  if constexpr ((SHAPES & 2) != 0) { bool ok3 = true; for (int k = 0; k < L; ++k) ok3 = ok3 && OP::pre(a[0], b[k]);      // (scalar, vec)
+  if constexpr ((SHAPES & 2) != 0) { bool ok3 = true; for (int k = 0; k < L; ++k) ok3 = ok3 && (OP::pre(a[0], b[k]) && LPOK(Q, a[0], b[k]));      // (scalar, vec)
     if (ok3) { auto r = OP::f(a[0], w); for (int k = 0; k < L; ++k) { auto s = OP::f(a[0], b[k]); typedef decltype(s) RT; if (!cmp_lane((RT)r[k], s, OP::CMP, QN<Q>::id == 2)) { o.res(bits_of((RT)r[k]), bits_of(b[k])); o.exp(bits_of(s)); REPORT(L, Q, "%s(scalar,vec): scalar must act as its broadcast") } } } }
-  if constexpr ((SHAPES & 4) != 0 && L > 1) { bool ok4 = true; for (int k = 0; k < L; ++k) ok4 = ok4 && OP::pre(a[k], b[0]) && OP::pre(a[0], b[k]);   // vec op vec1, vec1 op vec
+  if constexpr ((SHAPES & 4) != 0 && L > 1) { bool ok4 = true; for (int k = 0; k < L; ++k) ok4 = ok4 && (OP::pre(a[k], b[0]) && LPOK(Q, a[k], b[0])) && (OP::pre(a[0], b[k]) && LPOK(Q, a[0], b[k]));   // vec op vec1, vec1 op vec
     if (ok4) { auto r = OP::f(v, glm::vec<1, T2, Q>(b[0])); auto r2 = OP::f(glm::vec<1, T, Q>(a[0]), w); for (int k = 0; k < L; ++k) { auto s = OP::f(a[k], b[0]); auto s2 = OP::f(a[0], b[k]); typedef decltype(s) RT;
-        if (!cmp_lane((RT)r[k], s, OP::CMP, false) || !cmp_lane((RT)r2[k], s2, OP::CMP, false)) { o.res(bits_of((RT)r[k]), bits_of((RT)r2[k])); o.exp(bits_of(s), bits_of(s2)); REPORT(L, Q, "%s with a vec1 operand: vec1 must act as a broadcast scalar") } } } }
+        if (!cmp_lane((RT)r[k], s, OP::CMP, QN<Q>::id == 2) || !cmp_lane((RT)r2[k], s2, OP::CMP, QN<Q>::id == 2)) { o.res(bits_of((RT)r[k]), bits_of((RT)r2[k])); o.exp(bits_of(s), bits_of(s2)); REPORT(L, Q, "%s with a vec1 operand: vec1 must act as a broadcast scalar") } } } }
   return true;
 }
 template <class OP, typename T, typename T2, glm::qualifier Q, int SH> static bool b2q(uint64_t i, uint64_t j, Outcome& o) { return b2<OP, T, T2, 1, Q, SH>(i, j, o) && b2<OP, T, T2, 2, Q, SH>(i, j, o) && b2<OP, T, T2, 3, Q, SH>(i, j, o) && b2<OP, T, T2, 4, Q, SH>(i, j, o); }
-template <class OP, typename T, typename T2, int SH> static void op_b2(const Case& c, Outcome& o) { o.cls(0); g_checked = 0; g_dig = 0; struct G { Outcome& o; ~G() { if (!g_checked) o.nontrivial = false; o.dg(g_dig); } } g_{o}; if (!b2q<OP, T, T2, glm::highp, SH>(c.w[0], c.w[1], o)) return; if (!b2q<OP, T, T2, glm::lowp, SH>(c.w[0], c.w[1], o)) return; b2q<OP, T, T2, glm::mediump, SH>(c.w[0], c.w[1], o); }
+template <class OP, typename T, typename T2, int SH> static void op_b2(const Case& c, Outcome& o) { o.cls(0); g_checked = 0; g_dig = 0; g_lowp_skip = aligned_lowp_skip(OP::name()); struct G { Outcome& o; ~G() { if (!g_checked) o.nontrivial = false; o.dg(g_dig); } } g_{o}; if (!b2q<OP, T, T2, QHIGH, SH>(c.w[0], c.w[1], o)) return; if (!b2q<OP, T, T2, QLOW, SH>(c.w[0], c.w[1], o)) return; b2q<OP, T, T2, QMED, SH>(c.w[0], c.w[1], o); }
 
 // ---- ternary: vvv and the scalar-edge variants  SHAPES: 1 = (v,s,s)  2 = (v,v,s)  4 = (s,s,v)
 template <class OP, typename T, typename T3, int L, glm::qualifier Q, int SHAPES> static bool t3(uint64_t i, uint64_t j, uint64_t l, Outcome& o) {
   glm::vec<L, T, Q> v, w; glm::vec<L, T3, Q> x; T a[4], b[4]; T3 cc[4]; for (int k = 0; k < L; ++k) { a[k] = pick<T>(i, k, 0); b[k] = pick<T>(j, k, 1); cc[k] = pick<T3>(l, k, 2); v[k] = a[k]; w[k] = b[k]; x[k] = cc[k]; }
-  bool ok = true; for (int k = 0; k < L; ++k) ok = ok && OP::pre(a[k], b[k], cc[k]);
+  bool ok = true; for (int k = 0; k < L; ++k) ok = ok && (OP::pre(a[k], b[k], cc[k]) && LPOK(Q, a[k], b[k], cc[k]));
   if (ok) { auto r = OP::f(v, w, x); for (int k = 0; k < L; ++k) { auto s = OP::f(a[k], b[k], cc[k]); typedef decltype(s) RT; if (!cmp_lane((RT)r[k], s, OP::CMP, QN<Q>::id == 2, OP::mag(a[k], b[k], cc[k]))) { o.res(bits_of((RT)r[k]), bits_of(a[k])); o.exp(bits_of(s)); REPORT(L, Q, "%s(vec,vec,vec)[i] != scalar overload on component i") } } }
-  if constexpr ((SHAPES & 1) != 0) { bool ok2 = true; for (int k = 0; k < L; ++k) ok2 = ok2 && OP::pre(a[k], b[0], (T)cc[0]); if (ok2) { auto r = OP::f(v, b[0], (T)cc[0]); for (int k = 0; k < L; ++k) { auto s = OP::f(a[k], b[0], (T)cc[0]); typedef decltype(s) RT; if (!cmp_lane((RT)r[k], s, OP::CMP, QN<Q>::id == 2, OP::mag(a[k], b[0], (T)cc[0]))) { o.res(bits_of((RT)r[k]), bits_of(a[k])); o.exp(bits_of(s)); REPORT(L, Q, "%s(vec,scalar,scalar): scalars must act as broadcasts") } } } }
-  if constexpr ((SHAPES & 2) != 0) { bool ok2 = true; for (int k = 0; k < L; ++k) ok2 = ok2 && OP::pre(a[k], b[k], cc[0]); if (ok2) { auto r = OP::f(v, w, cc[0]); for (int k = 0; k < L; ++k) { auto s = OP::f(a[k], b[k], cc[0]); typedef decltype(s) RT; if (!cmp_lane((RT)r[k], s, OP::CMP, QN<Q>::id == 2, OP::mag(a[k], b[k], cc[0]))) { o.res(bits_of((RT)r[k]), bits_of(a[k])); o.exp(bits_of(s)); REPORT(L, Q, "%s(vec,vec,scalar): scalar must act as its broadcast") } } } }
-  if constexpr ((SHAPES & 4) != 0) { bool ok2 = true; for (int k = 0; k < L; ++k) ok2 = ok2 && OP::pre(a[0], b[0], cc[k]); if (ok2) { auto r = OP::f(a[0], b[0], x); for (int k = 0; k < L; ++k) { auto s = OP::f(a[0], b[0], cc[k]); typedef decltype(s) RT; if (!cmp_lane((RT)r[k], s, OP::CMP, QN<Q>::id == 2, OP::mag(a[0], b[0], cc[k]))) { o.res(bits_of((RT)r[k]), bits_of(cc[k])); o.exp(bits_of(s)); REPORT(L, Q, "%s(scalar,scalar,vec): scalars must act as broadcasts") } } } }
+  if constexpr ((SHAPES & 1) != 0) { bool ok2 = true; for (int k = 0; k < L; ++k) ok2 = ok2 && (OP::pre(a[k], b[0], (T)cc[0]) && LPOK(Q, a[k], b[0], (T)cc[0])); if (ok2) { auto r = OP::f(v, b[0], (T)cc[0]); for (int k = 0; k < L; ++k) { auto s = OP::f(a[k], b[0], (T)cc[0]); typedef decltype(s) RT; if (!cmp_lane((RT)r[k], s, OP::CMP, QN<Q>::id == 2, OP::mag(a[k], b[0], (T)cc[0]))) { o.res(bits_of((RT)r[k]), bits_of(a[k])); o.exp(bits_of(s)); REPORT(L, Q, "%s(vec,scalar,scalar): scalars must act as broadcasts") } } } }
+  if constexpr ((SHAPES & 2) != 0) { bool ok2 = true; for (int k = 0; k < L; ++k) ok2 = ok2 && (OP::pre(a[k], b[k], cc[0]) && LPOK(Q, a[k], b[k], cc[0])); if (ok2) { auto r = OP::f(v, w, cc[0]); for (int k = 0; k < L; ++k) { auto s = OP::f(a[k], b[k], cc[0]); typedef decltype(s) RT; if (!cmp_lane((RT)r[k], s, OP::CMP, QN<Q>::id == 2, OP::mag(a[k], b[k], cc[0]))) { o.res(bits_of((RT)r[k]), bits_of(a[k])); o.exp(bits_of(s)); REPORT(L, Q, "%s(vec,vec,scalar): scalar must act as its broadcast") } } } }
+  if constexpr ((SHAPES & 4) != 0) { bool ok2 = true; for (int k = 0; k < L; ++k) ok2 = ok2 && (OP::pre(a[0], b[0], cc[k]) && LPOK(Q, a[0], b[0], cc[k])); if (ok2) { auto r = OP::f(a[0], b[0], x); for (int k = 0; k < L; ++k) { auto s = OP::f(a[0], b[0], cc[k]); typedef decltype(s) RT; if (!cmp_lane((RT)r[k], s, OP::CMP, QN<Q>::id == 2, OP::mag(a[0], b[0], cc[k]))) { o.res(bits_of((RT)r[k]), bits_of(cc[k])); o.exp(bits_of(s)); REPORT(L, Q, "%s(scalar,scalar,vec): scalars must act as broadcasts") } } } }
   return true;
 }
 template <class OP, typename T, typename T3, glm::qualifier Q, int SH> static bool t3q(uint64_t i, uint64_t j, uint64_t l, Outcome& o) { return t3<OP, T, T3, 1, Q, SH>(i, j, l, o) && t3<OP, T, T3, 2, Q, SH>(i, j, l, o) && t3<OP, T, T3, 3, Q, SH>(i, j, l, o) && t3<OP, T, T3, 4, Q, SH>(i, j, l, o); }
-template <class OP, typename T, typename T3, int SH> static void op_t3(const Case& c, Outcome& o) { o.cls(0); g_checked = 0; g_dig = 0; struct G { Outcome& o; ~G() { if (!g_checked) o.nontrivial = false; o.dg(g_dig); } } g_{o}; if (!t3q<OP, T, T3, glm::highp, SH>(c.w[0], c.w[1], c.w[2], o)) return; if (!t3q<OP, T, T3, glm::lowp, SH>(c.w[0], c.w[1], c.w[2], o)) return; t3q<OP, T, T3, glm::mediump, SH>(c.w[0], c.w[1], c.w[2], o); }
+template <class OP, typename T, typename T3, int SH> static void op_t3(const Case& c, Outcome& o) { o.cls(0); g_checked = 0; g_dig = 0; g_lowp_skip = aligned_lowp_skip(OP::name()); struct G { Outcome& o; ~G() { if (!g_checked) o.nontrivial = false; o.dg(g_dig); } } g_{o}; if (!t3q<OP, T, T3, QHIGH, SH>(c.w[0], c.w[1], c.w[2], o)) return; if (!t3q<OP, T, T3, QLOW, SH>(c.w[0], c.w[1], c.w[2], o)) return; t3q<OP, T, T3, QMED, SH>(c.w[0], c.w[1], c.w[2], o); }
 
 template <typename T> static Domain D3() { return range("VALUES3<" + std::to_string(n3<T>()) + ">", 0, n3<T>(), false); }
 template <typename T> static Domain D1() { return range("VALUES<" + std::to_string(values<T>().size()) + ">", 0, values<T>().size(), false); }
@@ -185,8 +213,8 @@ template <typename T, int L, glm::qualifier Q> static bool misc_ops(uint64_t i, 
   struct OP { static const char* name() { return "compound/unary"; } };
   glm::vec<L, T, Q> v, w; T a[4], b[4]; for (int k = 0; k < L; ++k) { a[k] = pick<T>(i, k, 0); b[k] = pick<T>(j, k, 1); v[k] = a[k]; w[k] = b[k]; }
   const bool isint = std::is_integral<T>::value; int k = 0;
-#define CA(OPR, OKFN, CMPV, WHAT) { bool ok = true; for (int q = 0; q < L; ++q) ok = ok && OKFN(a[q], b[q]); if (ok) { glm::vec<L, T, Q> x = v; x OPR w; for (k = 0; k < L; ++k) { T s = a[k]; s OPR b[k]; if (!cmp_lane(x[k], s, CMPV, false)) { o.res(bits_of(x[k]), bits_of(a[k])); o.exp(bits_of(s)); REPORT(L, Q, "%s " WHAT " (vec)") } } } \
-    bool ok2 = true; for (int q = 0; q < L; ++q) ok2 = ok2 && OKFN(a[q], b[0]); if (ok2) { glm::vec<L, T, Q> x = v; x OPR b[0]; glm::vec<L, T, Q> y = v; y OPR glm::vec<1, T, Q>(b[0]); for (k = 0; k < L; ++k) { T s = a[k]; s OPR b[0]; if (!cmp_lane(x[k], s, CMPV, false) || !cmp_lane(y[k], s, CMPV, false)) { o.res(bits_of(x[k]), bits_of(y[k])); o.exp(bits_of(s)); REPORT(L, Q, "%s " WHAT " (scalar / vec1 right-hand side)") } } } }
+#define CA(OPR, OKFN, CMPV, WHAT) { bool ok = true; for (int q = 0; q < L; ++q) ok = ok && OKFN(a[q], b[q]) && LPOK(Q, a[q], b[q]); if (ok) { glm::vec<L, T, Q> x = v; x OPR w; for (k = 0; k < L; ++k) { T s = a[k]; s OPR b[k]; if (!cmp_lane(x[k], s, CMPV, QN<Q>::id == 2)) { o.res(bits_of(x[k]), bits_of(a[k])); o.exp(bits_of(s)); REPORT(L, Q, "%s " WHAT " (vec)") } } } \
+    bool ok2 = true; for (int q = 0; q < L; ++q) ok2 = ok2 && OKFN(a[q], b[0]) && LPOK(Q, a[q], b[0]); if (ok2) { glm::vec<L, T, Q> x = v; x OPR b[0]; glm::vec<L, T, Q> y = v; y OPR glm::vec<1, T, Q>(b[0]); for (k = 0; k < L; ++k) { T s = a[k]; s OPR b[0]; if (!cmp_lane(x[k], s, CMPV, QN<Q>::id == 2) || !cmp_lane(y[k], s, CMPV, QN<Q>::id == 2)) { o.res(bits_of(x[k]), bits_of(y[k])); o.exp(bits_of(s)); REPORT(L, Q, "%s " WHAT " (scalar / vec1 right-hand side)") } } } }
   CA(+=, add_ok, VALUE, "+=") CA(-=, sub_ok, VALUE, "-=") CA(*=, mul_ok, VALUE, "*=") CA(/=, div_ok, VALUE, "/=")
   if constexpr (std::is_integral<T>::value) { CA(%=, div_ok, BITS, "%=") CA(&=, [](T, T) { return true; }, BITS, "&=") CA(|=, [](T, T) { return true; }, BITS, "|=") CA(^=, [](T, T) { return true; }, BITS, "^=") CA(<<=, shl_ok, BITS, "<<=") CA(>>=, shr_ok, BITS, ">>=")
     { glm::vec<L, T, Q> x = ~v; for (k = 0; k < L; ++k) if (x[k] != (T)~a[k]) { o.res(bits_of(x[k])); o.exp(bits_of((T)~a[k])); REPORT(L, Q, "%s operator~") } } }
@@ -197,9 +225,9 @@ template <typename T, int L, glm::qualifier Q> static bool misc_ops(uint64_t i, 
   { bool eq = true; for (int q = 0; q < L; ++q) eq = eq && (a[q] == b[q]); k = 0; if ((v == w) != eq || (v != w) == eq) { o.res(v == w, v != w); o.exp(eq, !eq); REPORT(L, Q, "%s operator== / != (all components)") } }
   (void)isint; return true;
 }
-template <typename T> static void op_misc(const Case& c, Outcome& o) { o.cls(0);
+template <typename T> static void op_misc(const Case& c, Outcome& o) { o.cls(0); g_lowp_skip = false;
 #define MQ(Q) if (!misc_ops<T, 1, Q>(c.w[0], c.w[1], o) || !misc_ops<T, 2, Q>(c.w[0], c.w[1], o) || !misc_ops<T, 3, Q>(c.w[0], c.w[1], o) || !misc_ops<T, 4, Q>(c.w[0], c.w[1], o)) return;
-  MQ(glm::highp) MQ(glm::lowp) MQ(glm::mediump) }
+  MQ(QHIGH) MQ(QLOW) MQ(QMED) }
 template <typename T> static void Rmisc(Engine& E, const char* tn) { Op& op = E.add(std::string("compound assignment, unary -,+,~, ++/--, ==/!= <") + tn + "> L=1..4 x Q", op_misc<T>); op.quick = {product("VALUES^2", {D1<T>(), D1<T>()})}; }
 // bool vectors: && || ! not_ any all equal
 static void op_bool(const Case& c, Outcome& o) { o.cls(0); uint64_t m = c.w[0], n = c.w[1];
@@ -213,7 +241,7 @@ template <typename T> static void op_outparam(const Case& c, Outcome& o) { o.cls
     for (int k = 0; k < L; ++k) { int es = 0; T is = 0; T ms = glm::frexp(a[k], es), fs = glm::modf(a[k], is); bool fin = a[k] - a[k] == 0; if (!same_bits(m[k], ms) || (fin && e[k] != es) || !same_bits(fr[k], fs) || !same_bits(ip[k], is)) { o.res(bits_of(m[k]), bits_of(fr[k])); o.exp(bits_of(ms), bits_of(fs)); o.bad(L * 4 + QN<Q>::id, "frexp/modf(vec, out vec): component i differs from the scalar overload"); return; } } \
     { glm::vec<L, T, Q> al = v; glm::vec<L, T, Q> fa = glm::modf(al, al); for (int k = 0; k < L; ++k) { T is = 0; T fs = glm::modf(a[k], is); if (!same_bits(fa[k], fs) || !same_bits(al[k], is)) { o.res(bits_of(fa[k]), bits_of(al[k])); o.exp(bits_of(fs), bits_of(is)); o.bad(70 + L * 4 + QN<Q>::id, "modf(v, v) (output aliases input): component i differs from the scalar overload"); return; } } }\
     glm::vec<L, int, Q> ex; for (int k = 0; k < L; ++k) ex[k] = (int)((i + 7 * k) % 41) - 20; glm::vec<L, T, Q> ld = glm::ldexp(v, ex); for (int k = 0; k < L; ++k) if (!same_bits(ld[k], glm::ldexp(a[k], ex[k]))) { o.res(bits_of(ld[k])); o.exp(bits_of(glm::ldexp(a[k], ex[k]))); o.bad(50 + L * 4 + QN<Q>::id, "ldexp(vec, ivec): component i differs from the scalar overload"); return; } }
-  OPL(1, glm::highp) OPL(2, glm::highp) OPL(3, glm::highp) OPL(4, glm::highp) OPL(2, glm::lowp) OPL(3, glm::mediump) OPL(4, glm::lowp) }
+  OPL(1, QHIGH) OPL(2, QHIGH) OPL(3, QHIGH) OPL(4, QHIGH) OPL(2, QLOW) OPL(3, QMED) OPL(4, QLOW) }
 template <typename T> static void op_reduce(const Case& c, Outcome& o) { o.cls(0); uint64_t i = c.w[0];
 #define RDL(L) { glm::vec<L, T> v; T a[4]; bool fin = true; for (int k = 0; k < L; ++k) { a[k] = pick<T>(i, k, 0); v[k] = a[k]; fin = fin && (a[k] - a[k] == 0); } T mn = a[0], mx = a[0], sum = a[0], prod = a[0]; for (int k = 1; k < L; ++k) { mn = glm::min(mn, a[k]); mx = glm::max(mx, a[k]); sum = (T)(sum + a[k]); prod = (T)(prod * a[k]); } \
     if (!same_value(glm::compMin(v), mn) || !same_value(glm::compMax(v), mx)) { o.res(bits_of(glm::compMin(v)), bits_of(glm::compMax(v))); o.exp(bits_of(mn), bits_of(mx)); o.bad(L, "compMin/compMax: not the fold of scalar min/max over the components"); return; } \
@@ -234,7 +262,7 @@ template <typename T, int L, glm::qualifier Q> static bool findnsb_one(uint64_t 
   return true; }
 template <typename T> static void op_findnsb(const Case& c, Outcome& o) { o.cls(0);
 #define NQ(Q) if (!findnsb_one<T, 1, Q>(c.w[0], c.w[1], o) || !findnsb_one<T, 2, Q>(c.w[0], c.w[1], o) || !findnsb_one<T, 3, Q>(c.w[0], c.w[1], o) || !findnsb_one<T, 4, Q>(c.w[0], c.w[1], o)) return;
-  NQ(glm::highp) NQ(glm::lowp) NQ(glm::mediump) }
+  NQ(QHIGH) NQ(QLOW) NQ(QMED) }
 template <typename T> static void reg_float_unary(Engine& E, const char* tn) {
   R1<F_radians, T>(E, tn); R1<F_degrees, T>(E, tn); R1<F_sin, T>(E, tn); R1<F_cos, T>(E, tn); R1<F_tan, T>(E, tn); R1<F_asin, T>(E, tn); R1<F_acos, T>(E, tn); R1<F_atan, T>(E, tn); R1<F_sinh, T>(E, tn); R1<F_cosh, T>(E, tn); R1<F_tanh, T>(E, tn);
   R1<F_asinh, T>(E, tn); R1<F_acosh, T>(E, tn); R1<F_atanh, T>(E, tn); R1<F_exp, T>(E, tn); R1<F_log, T>(E, tn); R1<F_exp2, T>(E, tn); R1<F_log2, T>(E, tn); R1<F_sqrt, T>(E, tn); R1<F_inversesqrt, T>(E, tn);
